@@ -47,7 +47,7 @@ def gz_text(content):
 @st.composite
 def dir_items(draw, depth, full, gopher_ok, toplevel, max_items=5, kinds=None, longnames=False, encnames=True):
     """Returns list of (name, item) with item = dict(kind=..., ...)"""
-    kinds = kinds or ["txt", "txt", "html", "bin", "dir", "dir", "map", "mbox", "maildir"] + (
+    kinds = kinds or ["txt", "txt", "html", "bin", "dir", "dir", "map", "mbox", "maildir", "mapfile"] + (
         ["zip", "gz", "exec"] if full else [])
     if depth <= 0:
         kinds = [k for k in kinds if k not in ("dir", "map")] or ["txt"]
@@ -86,6 +86,11 @@ def dir_items(draw, depth, full, gopher_ok, toplevel, max_items=5, kinds=None, l
             item = {"kind": "map", "items": draw(dir_items(depth - 1, full, True, False, 3,
                                                            [k for k in kinds if k in ("txt", "html", "bin", "dir")])),
                     "info": draw(st.lists(gen.text_line.map(str.strip), max_size=2))}
+        elif kind == "mapfile":
+            # a menu that is a file: '<name>.gophermap' (info lines and a link back to the root)
+            name = name.split(".")[0] + ".gophermap"
+            item = {"kind": "mapfile", "content": "".join(l + "\n" for l in draw(st.lists(gen.text_line.map(str.strip).filter(bool), max_size=2))) +
+                    "1Back to the root\t/\n"}
         elif kind == "mbox":
             name = name.split(".")[0] + draw(st.sampled_from([".mbox", ""]))
             item = {"kind": "mbox", "subjects": draw(st.lists(subject_st, min_size=1, max_size=3))}
@@ -167,7 +172,7 @@ def to_spec(items, prefix=""):
     for name, it in items:
         p = prefix + name
         k = it["kind"]
-        if k in ("txt", "html", "bin"):
+        if k in ("txt", "html", "bin", "mapfile"):
             spec.append([p, "f", it["content"]])
         elif k == "dir":
             spec.append([p, "d", None])
@@ -208,6 +213,9 @@ def objects(items, base=""):
         k = it["kind"]
         if k in ("txt", "html", "bin"):
             out.append({"sel": sel, "kind": "doc", "what": k, "content": it["content"]})
+        elif k == "mapfile":
+            # a file called '<name>.gophermap': served as the menu its lines describe
+            out.append({"sel": sel, "kind": "menu", "what": "mapfile", "content": None})
         elif k in ("dir", "map"):
             out.append({"sel": sel, "kind": "menu", "what": k, "content": None})
             out += objects(it["items"], sel)
